@@ -188,10 +188,10 @@ PROPS['C20'] = {
 }
 PROPS['C15'] = {
     'level': 'proof', 'kani': ['misc:leaf'], 'verus': ['video_timing', 'video_leaf'], 'design_ref': 'DESIGN.md 5.15',
-    'trusted_base': ['Kani 0.68 + CBMC 6.11', 'Verus (palette setters in video_regs.vinc)'],
-    'technique': 'Verus contracts on the real rendering functions: full functional contract of find_current_line_sprites (object layer of a line against a declarative selection/priority spec), leaf contracts for tile/map addressing, row fetch and palettes; Kani full-domain harness for tile::interleave',
-    'level_text': 'Object layer (Verus, all OAM/VRAM contents, all lines, both object sizes): after find_current_line_sprites the 176-entry object line cache holds at every index the opaque pixel of the lowest-X-then-lowest-OAM-index object among the first ten OAM entries covering the line (0 where there is none), with y-flip, x-flip, 8x16 tile pairing (bit 0 of the index ignored), palette and BG-over-OBJ bit encoded; objects at X >= 168 draw nothing; nothing else of the video state changes. Leaves (Verus, all inputs): get_tile_address = unsigned addressing from 0x8000 / signed around 0x9000 for all 256 indices, get_bg_tile / get_window_tile read the configured map at row*32+column, cache_next_tile_row fetches map row ((LY+SCY) mod 256)/8, tile row (LY+SCY) mod 8 and wraps the column modulo 32, cache_next_window_tile_row uses (LY-WY) mod 256, get_object_row uses unsigned addressing and reverses both planes on x-flip, set_bgp / set_obj_palette fill the shade tables; tile::interleave(lo, hi) places pixel k\'s colour bits at bits 15-2k / 14-2k for all 2^16 inputs (CBMC, complete).',
-    'level_note': 'The mode-3 pixel pipeline (BG/window fetch across a line, window switch, object mixing into the frame buffer) is not yet under a functional contract; a change there is not seen by this check.',
+    'trusted_base': ['Kani 0.68 + CBMC 6.11', 'Verus/Z3 + extraction rules R1-R11', 'LCD::get_writing_buffer_line external_body: the returned slice is the 160-byte window of the line in the writing buffer', 'interleave_spec is uninterpreted in Verus; its bit layout is the Kani obligation leaf_interleave'],
+    'technique': 'Verus contracts on the real rendering functions, all of them in one unit so that every caller is checked against the proved callee contract: the whole of VideoState::run_clock_cycles (mode machine + mode-3 pixel pipeline, unsliced) against a declarative reference composition, find_current_line_sprites against a declarative selection/priority spec, leaf contracts for tile/map addressing, row fetch and palettes; Kani full-domain harness for tile::interleave',
+    'level_text': 'Frame (Verus, all VRAM/OAM contents, SCX/SCY/WX/WY, palettes, LCDC bits 1-6, any batching of cycles): run_clock_cycles preserves the rendering invariant pipe_inv (what has been drawn of the frame so far equals the reference composition and the tile/object pipeline is positioned where the dot counter says; trivially true in VBlank, where VideoState::new starts and every frame begins), and whenever a call raises the VBlank request the visible buffer satisfies frame_ok: every pixel (x, y) = mix(BG/window colour index, object layer of line y), where the BG index comes from the configured map and tile-data addressing at ((x+SCX) mod 256, (y+SCY) mod 256), the window replaces it from column WX-7 on lines >= WY (left of, inside or right of the screen), and the object layer is the one proved for find_current_line_sprites. Object layer (all inputs, both object sizes): the 176-entry line cache holds at every index the opaque pixel of the lowest-X-then-lowest-OAM-index object among the first ten OAM entries covering the line, with y-flip, x-flip, 8x16 tile pairing, palette and BG-over-OBJ bit; objects at X >= 168 draw nothing. Leaves (all inputs): signed/unsigned tile addressing, map addressing with SCY wrap and 32-column wrap, window line, object row fetch, shade tables; tile::interleave for all 2^16 inputs (CBMC, complete).',
+    'level_note': 'The proof of run_clock_cycles is split by rule R11 into one obligation per LCD mode (run_clock_cycles_pixels_case0..3): each copy assumes the other three match arms away, together they cover every path (the unsplit query needs rlimit 300 / 110 s and is unstable). LCD::get_writing_buffer_line (a range-index borrow of the frame buffer) is external with the slice semantics as its contract. Inputs held constant = the same vram/oam passed to every call and no register write in between (the contract is per call; the induction over calls is the usual one over pipe_inv). LCDC.0 (BG off) and LCDC.7 (LCD off) are outside the property and not modelled: the code ignores LCDC.0 when drawing.',
     'assumptions': [],
 }
 
